@@ -113,6 +113,14 @@ func gateMsg(name string, hbh uint32) []byte {
 		return appMsg(316, 16777251, true, hbh)
 	case "rar":
 		return appMsg(258, 0, true, hbh)
+	case "ccr_e":
+		b := appMsg(272, 4, true, hbh)
+		b[4] |= 0x20
+		return b
+	case "raa_e":
+		b := appMsg(258, 0, false, hbh)
+		b[4] |= 0x20
+		return b
 	case "cea_ok":
 		return buildCEA(hbh, hbh, 2001)
 	case "cea_fail":
